@@ -85,6 +85,43 @@ func Uninstall() {
 	verifrt.Native = false
 	verifrt.AcquireHook = nil
 	verifrt.ReleasedHook = nil
+	verifrt.IOHook = nil
+	verifrt.IOFault = nil
+}
+
+// IOStats counts what the file-system seam saw.
+type IOStats struct {
+	Calls  int64
+	Faults int64
+}
+
+// InstallIO makes every file-system call of the library a yield point of s
+// (s may be nil: no scheduling) and lets fault decide whether the call fails.
+// fault is called with the running count of file-system calls (from 0).
+func InstallIO(s *sched.Sched, fault func(n int64, kind, path string) error) *IOStats {
+	st := &IOStats{}
+	verifrt.IOHook = func(kind, path string) { ioYield(s, st) }
+	if fault != nil {
+		verifrt.IOFault = func(kind, path string) error { return ioFault(st, fault, kind, path) }
+	}
+	return st
+}
+
+//go:norace
+func ioYield(s *sched.Sched, st *IOStats) {
+	st.Calls++
+	if s.Active() && s.Cur() >= 0 {
+		s.Yield()
+	}
+}
+
+//go:norace
+func ioFault(st *IOStats, fault func(n int64, kind, path string) error, kind, path string) error {
+	if err := fault(st.Calls-1, kind, path); err != nil {
+		st.Faults++
+		return err
+	}
+	return nil
 }
 
 // LockStats counts what the lock seam saw.
